@@ -185,3 +185,18 @@ PROPS["C18"] = {
     "outside": ["state store (validators / params per height): see C08 history harness; PruneStates", "two crashes in one scenario", "commit signature verification of stored commits (C07)"],
     "timeout_quick": 300, "timeout_thorough": 3000,
 }
+
+PROPS["C06"] = {
+    "files": ["state/validation.go", "state/state.go", "types/block.go", "types/time/time.go"],
+    "groups": [
+        {"dir": "state",
+         "quick": ["VP_C06_Validate", "VP_C06_ValidateInitial"],
+         "thorough": []},
+    ],
+    "bounds": {
+        "validation (H1/H2)": "a 3-validator chain (powers 10,11,12) after block 1; block 2 built by the real State.MakeBlock from a commit whose three precommit timestamps are symbolic whole seconds in [-2,+5] around block 1's time; then exactly one header/content field replaced (version app/block, chain id, height, last block id, app / consensus / results / validators / next-validators hash, proposer, data hash, data content via the wire format, time shifted by a symbolic -3..+3 s, last commit reduced below two thirds) or none; accepted exactly when untouched and the weighted median (independent counting reference) is later than block 1's time; the first block at initial height 1..3: time = genesis time, empty last commit",
+    },
+    "stubs": ["ed25519 ideal for the symbolic-timestamp sign bytes (natively real)", "sha256 concrete except where timestamps are symbolic"],
+    "outside": ["H3 (bit-identical state transition on two replicas) is not built", "size-budget arithmetic of MaxDataBytes", "evidence admissibility inside the block (C11)", "sub-second timestamps"],
+    "timeout_quick": 420, "timeout_thorough": 1200,
+}
